@@ -23,6 +23,15 @@ why_missed = {
  "S62": "the genuine record was not re-judged directly after an unparsable-signature forgery", "S63": "no small-order ed25519 keys", "S65": "no uncompressed-key sibling sequences", "S66": "lists were framed by RefRLP only, never by the library's own Encodable",
  "S68": "no byte string wrapping an encoded client list",
  "S71": "a panic was reported under C03 only, not as 'text neither accepted nor rejected'", "S73": "no before/after == comparison across failing updates", "S75": "C15's workload had no size-limit/sequence-boundary cases", "S76": "as S75 (no decode image was not a C15 event)",
+ "S87": "error values were never formatted", "S88": "no direct calls of the key traits (decode_public / encode_uncompressed) on 33-byte keys with other tags", "S89": "the harness always built the library with the ed25519 feature; configuration D (crate defaults) was missing",
+ "S90": "set_public_key with a key of the other scheme only as a non-final step", "S92": "no byte-value sweep of one-byte values (0x80 boundary) through the typed insert",
+ "S93": "no DER-encoded signature tamper", "S96": "no logger was ever installed", "S99": "set_seq on records at the size limit only with larger sequence numbers, never equal-length ones", "S100": "builder size sweep had only ASCII multi-byte keys", "S102": "streams of records never followed a REJECTED record by a valid one",
+ "S107": "a re-used builder never set the same port twice", "S108": "C15's pairs never differed in one boundary-shifted key/value split", "S109": "clone_from was never called",
+ "S110": "no well-formed record of 64 KiB or more", "S113": "the panic was reported under C03 only; C02 counted it as a foreign event", "S115": "no remove_insert value above 65 KiB", "S116": "the long-signature builder cases ran only in release shards; the overflow check needs the dev layer",
+ "S121": "the signer's own key was never written under its slot in a non-canonical accepted encoding (65-byte uncompressed)",
+ "S124": "records made by the library's own mutators were never fed back to the decoder monitors in C01's workload; no content sizes around 55/56", "S127": "a re-used builder was never rebuilt after a call that changes only the sequence number",
+ "S130": "the node id was not held against the carried key on the state a FAILING update leaves; no signer faults in C10's workload", "S131": "no secrets that are themselves well-formed DER documents", "S133": "wrong-length inputs were patterned bytes only, never seed||public key",
+ "S135": "alone vs. with-suffix compared Ok/Err only, not the error value; no custom-scheme records shorter than 64 bytes",
  "S77": "multi-byte characters only at one offset and length", "S78": "only 9 non-hex characters tried", "S80": "no back-to-back imports of permuted seeds", "S81": "no text-looking secrets", "S84": "no non-canonical small-order ed25519 encodings",
 }
 rows = []
